@@ -62,6 +62,11 @@ struct Env {
     locals: Vec<LocalId>,
     globals: Vec<GlobalId>,
     memory: MemoryId,
+    /// memories 0 and 1, tables 0 and 1, the passive segments (bulk environment; empty when the tree has no bulk operator)
+    mems: Vec<MemoryId>,
+    tabs: Vec<TableId>,
+    data: Option<DataId>,
+    elem: Option<ElementId>,
     helper: FunctionId,
     /// construct id -> sequence type
     seq_tys: HashMap<usize, InstrSeqType>,
@@ -94,6 +99,14 @@ fn to_instr(op: &TOp, env: &Env, labels: &HashMap<usize, InstrSeqId>) -> Instr {
         TOp::MemorySize => MemorySize { memory: env.memory }.into(),
         TOp::MemoryGrow => MemoryGrow { memory: env.memory }.into(),
         TOp::CallHelper => Call { func: env.helper }.into(),
+        TOp::MemoryCopy { src, dst } => MemoryCopy { src: env.mems[*src], dst: env.mems[*dst] }.into(),
+        TOp::TableCopy { src, dst } => TableCopy { src: env.tabs[*src], dst: env.tabs[*dst] }.into(),
+        TOp::MemoryInit { mem } => MemoryInit { memory: env.mems[*mem], data: env.data.unwrap() }.into(),
+        TOp::DataDrop => DataDrop { data: env.data.unwrap() }.into(),
+        TOp::TableInit { table } => TableInit { table: env.tabs[*table], elem: env.elem.unwrap() }.into(),
+        TOp::ElemDrop => ElemDrop { elem: env.elem.unwrap() }.into(),
+        TOp::MemoryFill { mem } => MemoryFill { memory: env.mems[*mem] }.into(),
+        TOp::TableSize { table } => TableSize { table: env.tabs[*table] }.into(),
     }
 }
 
@@ -271,6 +284,15 @@ fn build_closures(b: &mut InstrSeqBuilder, nodes: &[TNode], env: &Env, labels: &
                     TOp::MemorySize => b.memory_size(env.memory),
                     TOp::MemoryGrow => b.memory_grow(env.memory),
                     TOp::CallHelper => b.call(env.helper),
+                    // the convenience methods take (source, destination) / (container, segment)
+                    TOp::MemoryCopy { src, dst } => b.memory_copy(env.mems[*src], env.mems[*dst]),
+                    TOp::TableCopy { src, dst } => b.table_copy(env.tabs[*src], env.tabs[*dst]),
+                    TOp::MemoryInit { mem } => b.memory_init(env.mems[*mem], env.data.unwrap()),
+                    TOp::DataDrop => b.data_drop(env.data.unwrap()),
+                    TOp::TableInit { table } => b.table_init(env.tabs[*table], env.elem.unwrap()),
+                    TOp::ElemDrop => b.elem_drop(env.elem.unwrap()),
+                    TOp::MemoryFill { mem } => b.memory_fill(env.mems[*mem]),
+                    TOp::TableSize { table } => b.table_size(env.tabs[*table]),
                     other => b.instr(to_instr(other, env, labels)),
                 };
             }
@@ -345,6 +367,13 @@ fn build_positional_closures(b: &mut InstrSeqBuilder, nodes: &[TNode], env: &Env
                     TOp::Return => b.return_at(pos),
                     TOp::Unreachable => b.unreachable_at(pos),
                     TOp::CallHelper => b.call_at(pos, env.helper),
+                    TOp::MemoryCopy { src, dst } => b.memory_copy_at(pos, env.mems[*src], env.mems[*dst]),
+                    TOp::TableCopy { src, dst } => b.table_copy_at(pos, env.tabs[*src], env.tabs[*dst]),
+                    TOp::MemoryInit { mem } => b.memory_init_at(pos, env.mems[*mem], env.data.unwrap()),
+                    TOp::DataDrop => b.data_drop_at(pos, env.data.unwrap()),
+                    TOp::TableInit { table } => b.table_init_at(pos, env.tabs[*table], env.elem.unwrap()),
+                    TOp::ElemDrop => b.elem_drop_at(pos, env.elem.unwrap()),
+                    TOp::MemoryFill { mem } => b.memory_fill_at(pos, env.mems[*mem]),
                     other => b.instr_at(pos, to_instr(other, env, labels)),
                 };
             }
@@ -434,7 +463,16 @@ fn build_module_mode(t: &TFunc, order: u32, seed: u64, mode: u8) -> Vec<u8> {
     let results: Vec<ValType> = t.results.iter().map(|x| vt(*x)).collect();
     let mut seq_tys = HashMap::new();
     collect_types(&t.body, &mut m.types, &mut seq_tys);
-    let env = Env { locals: locals.clone(), globals, memory, helper, seq_tys };
+    let (mut mems, mut tabs, mut data, mut elem) = (vec![memory], vec![], None, None);
+    if tree::uses_bulk(&t.body) {
+        mems.push(m.memories.add_local(false, false, 1, None, None));
+        for _ in 0..2 {
+            tabs.push(m.tables.add_local(false, 4, None, RefType::Funcref));
+        }
+        data = Some(m.data.add(DataKind::Passive, vec![1, 2, 3, 4]));
+        elem = Some(m.elements.add(ElementKind::Passive, ElementItems::Functions(vec![helper, helper])));
+    }
+    let env = Env { locals: locals.clone(), globals, memory, mems, tabs, data, elem, helper, seq_tys };
     let mut fb = FunctionBuilder::new(&mut m.types, &params, &results);
     let mut labels: HashMap<usize, InstrSeqId> = HashMap::new();
     let body_id = fb.func_body_id();
